@@ -633,7 +633,10 @@ pub fn ref_encode(msg: &RMsg, noise: &mut Noise) -> Encoded {
                 v
             }
             RAttr::ChangeRequest { ip, port } => {
-                let x: u32 = (if *ip { 0x4 } else { 0 }) | (if *port { 0x2 } else { 0 });
+                // RFC 5780 7.2: only the A (0x4) and B (0x2) flags are defined, the other 30 bits are ignored by receivers
+                let hi = noise.bits(29);
+                let lo = noise.bits(1);
+                let x: u32 = (hi << 3) | (if *ip { 0x4 } else { 0 }) | (if *port { 0x2 } else { 0 }) | lo;
                 x.to_be_bytes().to_vec()
             }
             RAttr::ResponsePort(p) => p.to_be_bytes().to_vec(),
